@@ -1110,3 +1110,72 @@ def rule_inline_table(m, rid):
                % (line, q_in, got[0] if isinstance(got, tuple) else got, got[1] if isinstance(got, tuple) else None, comments, wc, wq, wcm, len(bad)),
                m.loc(f))
     return r
+
+
+# ------------------------------------------------------------------------------------------------
+# fixed-form continuation joining (C05.R9): one iteration of the F90-style fixed-form continuation loop
+# ------------------------------------------------------------------------------------------------
+# physical continuation/comment line -> (text contributed to the statement, comment queued)
+FIXED_CONT_TABLE = [
+    ("     &  + 2", "  + 2", None),
+    ("     1 'abc'", " 'abc'", None),
+    ("     $call foo(a)", "call foo(a)", None),
+    ("     +      b", "      b", None),
+    ("c a comment", None, "c a comment"),
+    ("* starred", None, "* starred"),
+    ("! bang", None, "! bang"),
+    ("", None, ""),
+]
+
+
+def rule_fixed_continuation(m, rid):
+    from sa import pureeval as PE
+    from rules import regex_rules as RR
+    r = RuleResult(rid, "fixed-form continuation joining (decided as a table over one iteration of the loop): a continuation line contributes "
+                        "exactly its columns 7 onwards, a comment line inside a continued statement is queued as a comment and contributes "
+                        "nothing")
+    r.floor = 6
+    f = reader_func(m, "get_source_item")
+    loop = None
+    for n in A.body_nodes(f.node):
+        if isinstance(n, ast.While) and "_is_fix_cont" in A.text(n.test) and "_is_fix_comment" in A.text(n.test):
+            loop = n
+    if loop is None:
+        r.error("get_source_item: the fixed-form continuation loop (`while _is_fix_cont(next_line) or _is_fix_comment(...)`) was not found")
+        return r
+    ev = RR.evaluator_with_funcs(m, RF)
+    bad = []
+    try:
+        for row, want_text, want_comment in FIXED_CONT_TABLE:
+            r.instances += 1
+            lines = ["      x = 1"]
+            queued = []
+            fmt = PE.Obj({"is_strict": False, "f2py_enabled": False, "is_fixed": True, "is_f77": False})
+            me = PE.Obj({"linecount": 9, "_format": fmt, "format": fmt, "fifo_item": PE.Obj({"append": queued.append}),
+                         "comment_item": lambda text, a=None, b=None, inline_comment=False: ("comment", text),
+                         "handle_inline_comment": lambda l_, n_, q_=None, b_=True: (l_, q_, False),
+                         "get_next_line": lambda *a, **k: None})
+            env = {"self": me, "lines": lines, "get_single_line": lambda: row, "isstrict": False, "qc": None, "have_comment": False,
+                   "endlineno": 0, "handle_inline_comment": lambda l_, n_, q_=None, b_=True: (l_, q_, False), "startlineno": 8,
+                   "next_line": row}
+            try:
+                ev.block(loop.body, env)
+            except (PE._Break, PE._Continue):
+                pass
+            got_text = "".join(lines[1:]) if len(lines) > 1 else None
+            got_comment = queued[0][1] if queued else None
+            ok = got_text == want_text and got_comment == want_comment
+            r.ob(ok, "%r -> text %r, comment %r" % (row, got_text, got_comment))
+            if not ok:
+                bad.append((row, got_text, got_comment, want_text, want_comment))
+    except PE.Unsupported as err:
+        r.error("get_source_item: cannot interpret the fixed-form continuation loop statically (%s)" % err)
+        return r
+    except PE.PyRaise as err:
+        r.error("get_source_item: the fixed-form continuation loop raises %s on a table line" % err.exc_type)
+        return r
+    if bad:
+        row, gt, gc, wt, wc = bad[0]
+        r.fail("get_source_item|fixed-continuation|%s" % row[:12], "get_source_item: the fixed-form line %r inside a continued statement contributes %r "
+               "and queues the comment %r; expected %r and %r (%d table rows disagree)" % (row, gt, gc, wt, wc, len(bad)), m.loc(f, loop))
+    return r
